@@ -19,7 +19,7 @@ AttrKinds == {"obj", "missing", "null", "str", "arr"}
 \* C07 / C03: zone slots holding the wrong kind of value, and statement / document / stage arrays whose items are bare scalars,
 \* null or arrays instead of documents (not derivable from the grammar: label "any")
 DamagedSlots == {"updatesItems", "deletesItems", "documentsItems", "pipelineItems", "uPipeItems", "filterStr", "filterArr", "sortNum",
-                 "pipelineObj", "pipelineStr", "updatesObj", "documentsStr", "qNull", "uStr"}
+                 "pipelineObj", "pipelineStr", "updatesObj", "documentsStr", "qNull", "uStr", "explainWrap"}
 RECURSIVE AnyLab(_)
 AnyLab(v) == CASE v.t = "obj" -> Obj([i \in 1..Len(v.kv) |-> <<v.kv[i][1], AnyLab(v.kv[i][2])>>])
                [] v.t = "arr" -> Arr([i \in 1..Len(v.it) |-> AnyLab(v.it[i])])
@@ -71,6 +71,9 @@ CmdFor(s, t) ==
     [] s = "documentsStr"   -> Cmd("insert", "documents", Leaf("plain", "any"))
     [] s = "qNull"          -> Cmd("delete", "q", Null("any"))
     [] s = "uStr"           -> Cmd("update", "u", Leaf("plain", "any"))
+    \* explain wraps the whole command; the tool does not claim it - whatever it does, nothing around the zones may change
+    [] s = "explainWrap"    -> Obj(<< <<"explain", Obj(<< <<"find", Str("plain", "any")>>, <<"filter", t>>, <<"limit", Num("any")>> >>)>>,
+                                      <<"verbosity", Lit("queryPlanner")>>, <<"maxTimeMS", Num("env")>>, <<"$db", NsName>> >>)
 
 CaseLine(ak) ==
   LET doc == CmdFor(slot, IF slot \in DamagedSlots THEN AnyLab(ContentTree(content)) ELSE ContentTree(content)) IN
